@@ -88,12 +88,20 @@ impl Socket {
                         .unwrap()
                         .remove(&(addr, message.transaction_id.clone()))
                     {
+                        #[cfg(btdht_verif)]
+                        crate::verif::emit("SockRecv", || {
+                            vec![("node", self.local_addr.into()), ("src", addr.into()), ("routed", "exchange".into())]
+                        });
                         responded.lock().unwrap().make_ready(message);
                     } else {
                         return Ok((message, addr));
                     }
                 }
                 Err(_) => {
+                    #[cfg(btdht_verif)]
+                    crate::verif::emit("SockRecv", || {
+                        vec![("node", self.local_addr.into()), ("src", addr.into()), ("routed", "undecodable".into())]
+                    });
                     tracing::warn!(
                         "{}: Failed decode incoming message from {addr:?}",
                         self.ip_version()
